@@ -368,6 +368,10 @@ def mutate(owner, fname, old, new, count=1, accessor='fget'):
     if src.count(old) < 1:
         raise HarnessError('canary: %r not found in %s.%s' % (old, getattr(owner, '__name__', owner), fname))
     src2 = src.replace(old, new, count)
+    if isinstance(owner, type):
+        # private name mangling (self.__x) is done by the compiler only inside a class body: do it textually
+        import re
+        src2 = re.sub(r'\.__([A-Za-z]\w*?)(?<!__)\b', lambda m: '._%s__%s' % (owner.__name__.lstrip('_'), m.group(1)), src2)
     mod = sys.modules[target.__module__]
     ns = {}
     glb = dict(mod.__dict__)
@@ -416,7 +420,8 @@ def run_canaries(mod, tier='quick', budget=60):
                 viol = res['violations']
             clauses = sorted({v['clause'] for v in viol})
             caught = any(c in expected for c in clauses) if expected else bool(clauses)
-            out.append({'canary': name, 'part': part_name, 'caught': caught, 'clauses': clauses[:6]})
+            errs = (res.get('errors') if part.kind != 'crosshair' else rep.get('errors')) or []
+            out.append({'canary': name, 'part': part_name, 'caught': caught, 'clauses': clauses[:6], 'errors': [str(e)[:200] for e in errs[:2]]})
         finally:
             undo()
     return out
@@ -557,7 +562,7 @@ def run_property(mod, argv=None):
         res = run_canaries(mod, tier)
         bad = [r for r in res if not r['caught']]
         for r in res:
-            print('canary %-40s part=%-24s caught=%s clauses=%s' % (r['canary'], r['part'], r['caught'], r['clauses']))
+            print('canary %-40s part=%-24s caught=%s clauses=%s %s' % (r['canary'], r['part'], r['caught'], r['clauses'], ('errors=%s' % r['errors']) if r.get('errors') else ''))
         return EXIT_HARNESS if bad else EXIT_OK
 
     if args.replay:
